@@ -26,7 +26,7 @@ CHECKS.update({
                   "partition in dependency order, pasted empty, every formula runs once, exactly the targets remain (as inputs, with the directly evaluated values), cache restored by generate_actions. "
                   "Tied to /repo on every run by exact comparison of action lists, execution logs, per-action cache states and values on generated models.",
              note="trusted: Coq kernel incl. vm_compute, harness, Plan/Tie.v; modelled not verified: networkx topological_sort (its output is an input checked by check_order, proved sound), "
-                  "trace graph abstracted to calculated nodes reachable through calculated nodes; precondition D25 (no precedent pre-computed) explicit in the statements, recorded as known finding; 35% of the plans hold None values (allow_none), observed as 0",
+                  "trace graph abstracted to calculated nodes reachable through calculated nodes; precondition D25 (no precedent pre-computed) explicit in the statements, recorded as known finding; 35% of the plans hold None values (allow_none), observed as 0; (P)-only classes: a second round on the same model, a failing element, one plan with 6000 elements under one target",
              technique="Coq proof (induction over the planner loop and over fuel) + vm_compute correspondence + property oracle", design="6/C16"),
 })
 CHECKS.update({
@@ -96,7 +96,7 @@ CHECKS.update({
                   "extraction, for all well-formed structured texts; tied to /repo on every run by evaluating the model on the real texts with asttokens positions, plus a behavioural oracle "
                   "(values, parameters, AST, comments).",
              note="partial: CPython tokenizer/compiler, ast+asttokens positions, textwrap.dedent, inspect.getsource modelled not verified (positions are inputs cross-checked per case); behavioural half "
-                  "rests on the (P) oracle; insert_indents=True, multi-line lambdas, _reload, NULL_FORMULA outside theorems; D31 D33 D34 D35 recorded findings avoided (D10 D30 D32 D36 repaired in /repo and generated); half of the renames have an overriding and a plainly derived bystander sub space",
+                  "rests on the (P) oracle; insert_indents=True, multi-line lambdas, _reload, NULL_FORMULA outside theorems; D31 D33 D34 D35 recorded findings avoided (D10 D30 D32 D36 repaired in /repo and generated); half of the renames have an overriding and a plainly derived bystander sub space; sibling lambdas on one line: refusal (D35) accepted, a capture must be the wanted lambda",
              technique="Coq Gallina model + inductive proofs + vm_compute correspondence on generated structured texts + differential oracle", design="6/C20"),
 })
 CHECKS.update({
